@@ -34,11 +34,14 @@ def run(rep):
     cfgs = {(r["p"], r["fl"]): r for r in res.records if r.get("kind") == "cfg"}
     smpats = {json.dumps(r["ast"], sort_keys=True): r for r in res.records if r.get("kind") == "smpat"}
     grid = [r for r in res.records if r.get("kind") == "smgrid"]
+    gcpats = {json.dumps(r["ast"], sort_keys=True): r for r in res.records if r.get("kind") == "gcpat"}
+    if not gcpats or any(not r["variants"] or not r["subjects"] for r in gcpats.values()):
+        raise Machinery("enumeration incomplete: group-count family has %d patterns" % len(gcpats))
     if not hist or not grid or len(cfgs) < 30 or len(smpats) < 50:
         raise Machinery("enumeration incomplete: %d cfg, %d patterns" % (len(cfgs), len(smpats)))
     hist, grid = hist[0], grid[0]
     histories(rep, hist, cfgs)
-    string_methods(rep, grid, list(smpats.values()))
+    string_methods(rep, grid, list(smpats.values()), sorted(gcpats.values(), key=lambda r: (r["gn"], r["shape"])))
     rep.exhaustive = True
     rep.notes["rule"] = ("histories: every step of every history is one judged observation [result, lastIndex]; "
                          "string methods: one judged call = (method, pattern, flags, subject, lastIndex before, replacement/limit)")
@@ -124,14 +127,18 @@ def show_sm(g, c):
                                                   " after exec" if c.get("pre") else "")
 
 
-def string_methods(rep, grid, pats):
+def string_methods(rep, grid, pats, gcpats):
     groups, ncase = [], 0
     li0s = sorted(grid["li0"])
-    for p in pats:
+    ngen = 0
+    for p in pats + gcpats:
+        if p.get("kind") == "gcpat" and not ngen:
+            ngen = ncase
         for fl in grid["flags"]:
             g = {"id": len(groups), "src": p["src"], "ast": p["ast"], "flags": fl, "cases": []}
-            for s in grid["subjects"]:
-                for var in grid["variants"]:
+            # the group-count family brings its own subjects and variants (both depend on the number of groups)
+            for s in p.get("subjects", grid["subjects"]):
+                for var in p.get("variants", grid["variants"]):
                     for li0 in (li0s if "y" in fl else li0s[:1]):          # lastIndex before the call matters to sticky regexes only
                         g["cases"].append({"id": ncase, "s": s, "li0": li0, "var": var})
                         ncase += 1
@@ -140,7 +147,11 @@ def string_methods(rep, grid, pats):
                         ncase += 1
             groups.append(g)
     rep.spaces.append({"space": "string methods: %d patterns x %d flag sets x %d subjects x %d variants (x lastIndex before the call for sticky)"
-                       % (len(pats), len(grid["flags"]), len(grid["subjects"]), len(grid["variants"])), "cases": ncase, "complete": True})
+                       % (len(pats), len(grid["flags"]), len(grid["subjects"]), len(grid["variants"])), "cases": ngen, "complete": True})
+    rep.spaces.append({"space": "group-count family: patterns with %s capture groups x %d shapes x %d flag sets x 3 subjects x ($nn classes x 3 forms, $n, "
+                                "replaceAll, function replacer, match, split)"
+                       % (sorted({p["gn"] for p in gcpats}), len({p["shape"] for p in gcpats}), len(grid["flags"])),
+                       "cases": ncase - ngen, "classes": sorted({c for p in gcpats for c in p["classes"]}), "complete": True})
     t0, c0 = time.time(), cpu()
     results = engine.run_cases(rep.pid, [{"id": g["id"], "src": g["src"], "flags": g["flags"], "cases": g["cases"]} for g in groups],
                                driver="checks.c20_driver:strmethod_driver", tag="eng_sm", timeout=14400)
